@@ -107,6 +107,14 @@ class Parser(AttrParser):
         self.forward_ssa_references = dict()
 
     def parse_module(self, allow_implicit_module: bool = True) -> ModuleOp:
+        try:
+            return self._parse_module(allow_implicit_module)
+        except RecursionError:
+            # Report deeply nested input as a diagnostic rather than an internal error.
+            pass
+        self.raise_error("Input is nested too deeply to be parsed")
+
+    def _parse_module(self, allow_implicit_module: bool = True) -> ModuleOp:
         module_op: Operation
 
         if not allow_implicit_module:
